@@ -169,8 +169,8 @@ class ExprMixin:
         A = self.fresh(SeqSort, 'extat')
         v = z3.Const('v!e', Val); j = z3.Int('j!e')
         st.assume(z3.ForAll([v], z3.Select(B, v) == h.bag(l, v) + h.bag(m, v), patterns=[z3.Select(B, v)]))
-        st.assume(z3.ForAll([j], z3.Implies(z3.And(0 <= j, j < n), z3.Select(A, j) == h.at(l, j)), patterns=[z3.Select(A, j)]))
-        st.assume(z3.ForAll([j], z3.Implies(z3.And(0 <= j, j < k), z3.Select(A, n + j) == h.at(m, j)), patterns=[h.at(m, j)]))
+        st.assume(z3.ForAll([j], z3.Implies(z3.And(0 <= j, j < n + k), z3.Select(A, j) == z3.If(j < n, h.at(l, j), h.at(m, j - n))),
+                            patterns=[z3.Select(A, j)]))
         st.set_arr('L_at', z3.Store(h.arr['L_at'], l, A))
         st.set_arr('L_len', z3.Store(h.arr['L_len'], l, n + k))
         st.set_arr('L_bag', z3.Store(h.arr['L_bag'], l, B))
